@@ -177,6 +177,107 @@ def check_validate(ctx, node, prim_fields=()):
                     raise ctx.err(node, 'validate() delegates to an object that is not one of its primitive items')
 
 
+ANY_ATTR_TEMPLATES = {
+    # Attributes.read: zero or more attributes of any kind, until fewer than 3 bytes remain or the next tag is not a Tags member
+    'rd_many': """
+while True:
+    if len(BUF) < 3:
+        break
+    tag = struct.unpack('!I', b'\\x00' + BUF.peek(3))[0]
+    if enums.is_enum_value(enums.Tags, tag):
+        tag = enums.Tags(tag)
+        if not enums.is_attribute(tag, kmip_version=kmip_version):
+            raise X
+        value = self.FACT.create_attribute_value_by_enum(tag, None)
+        value.read(BUF, kmip_version=kmip_version)
+        self.FIELD.append(value)
+    else:
+        break
+""",
+    # CurrentAttribute / NewAttribute .read: exactly one attribute of any kind
+    'rd_one': """
+if len(BUF) < 3:
+    raise X
+tag = struct.unpack('!I', b'\\x00' + BUF.peek(3))[0]
+if enums.is_enum_value(enums.Tags, tag):
+    tag = enums.Tags(tag)
+    if enums.is_attribute(tag, kmip_version=kmip_version):
+        value = self.FACT.create_attribute_value_by_enum(tag, None)
+        value.read(BUF, kmip_version=kmip_version)
+        self.FIELD = value
+    else:
+        raise X
+else:
+    raise X
+""",
+    'wr_many': """
+for attribute in self.FIELD:
+    tag = attribute.tag
+    if not enums.is_attribute(tag, kmip_version=kmip_version):
+        raise X
+    attribute.write(BUF, kmip_version=kmip_version)
+""",
+    'wr_one': """
+if self.FIELD:
+    tag = self.FIELD.tag
+    if not enums.is_attribute(tag, kmip_version=kmip_version):
+        raise X
+    self.FIELD.write(BUF, kmip_version=kmip_version)
+else:
+    raise X
+""",
+}
+_FIXED_NAMES = {'self', 'enums', 'struct', 'kmip_version', 'len', 'True', 'False', 'None'}
+
+
+def canon(nodes):
+    """Shape of a statement list with `raise ...` reduced to a bare raise, local names and attributes of self renamed
+    by order of first appearance -> (dump, [self attributes in order], [local names in order])"""
+    import copy
+    nodes = [copy.deepcopy(n) for n in nodes]
+    attrs, names = [], []
+
+    class T(ast.NodeTransformer):
+        def visit_Raise(self, n):
+            return ast.Raise(exc=None, cause=None)
+
+        def visit_Attribute(self, n):
+            if _is_name(n.value, 'self'):
+                if n.attr not in attrs:
+                    attrs.append(n.attr)
+                return ast.Attribute(value=ast.Name(id='self', ctx=ast.Load()), attr='A%d' % attrs.index(n.attr), ctx=ast.Load())
+            self.generic_visit(n)
+            return n
+
+        def visit_Name(self, n):
+            if n.id in _FIXED_NAMES:
+                return ast.Name(id=n.id, ctx=ast.Load())
+            if n.id not in names:
+                names.append(n.id)
+            return ast.Name(id='L%d' % names.index(n.id), ctx=ast.Load())
+
+    out = []
+    for n in nodes:
+        n = T().visit(n)
+        for sub in ast.walk(n):
+            if hasattr(sub, 'ctx'):
+                sub.ctx = ast.Load()
+        out.append(ast.dump(n))
+    return '|'.join(out), attrs, names
+
+
+def match_any_attr(which, nodes):
+    """-> dict(FIELD=..., FACT=..., BUF=...) when the statements have exactly the shape of the template, else None"""
+    tmpl = ast.parse(ANY_ATTR_TEMPLATES[which]).body
+    td, tattrs, tnames = canon(tmpl)
+    d, attrs, names = canon(nodes)
+    if d != td or len(attrs) != len(tattrs) or len(names) != len(tnames):
+        return None
+    out = dict(zip(tattrs, attrs))
+    out.update({tn: n for tn, n in zip(tnames, names) if tn in ('BUF',)})
+    return out
+
+
 def copy_node(n):
     import copy
     return copy.deepcopy(n)
@@ -203,6 +304,55 @@ class Kinds:
         self.primitives = importlib.import_module('kmip.core.primitives')
         self.enums = importlib.import_module('kmip.core.enums')
         self.stubs = {}
+        self.tables = {}            # name -> {'factory', 'rows': [[tag, kind, lo, hi]], 'dropped'}
+
+    def tagged_table(self, ctx, node, fact_attr):
+        """The table behind the KMIP 2.0 any-attribute items: for every member of enums.Tags, the versions under which
+        enums.is_attribute holds and the item the class's attribute value factory builds for it (by execution)."""
+        inst = ctx.cls()
+        factory = getattr(inst, fact_attr)
+        name = 'attributes'
+        fkey = type(factory).__module__ + '.' + type(factory).__name__
+        if self.tables.get(name) and self.tables[name]['factory'] != fkey:
+            raise ctx.err(node, 'a second attribute value factory class (%s) is used for any-attribute items' % fkey)
+        if name in self.tables:
+            return name
+        E = self.enums
+        vmem = [(code, getattr(E.KMIPVersion, nm)) for nm, code in sorted(VERSION_CODES.items(), key=lambda kv: kv[1])]
+        codes = [c for c, _ in vmem]
+        rows, dropped = [], {}
+        for tag in E.Tags:
+            act = [bool(E.is_attribute(tag, kmip_version=vm)) for _, vm in vmem]
+            if not any(act):
+                continue
+            try:
+                obj = factory.create_attribute_value_by_enum(tag, None)
+                if obj is None:
+                    raise ValueError('the factory returns None')
+                t, kind = self.classify(ctx, node, obj)
+                if t != tag.value:
+                    raise ValueError('the factory product carries tag %#x' % t)
+            except Untranslatable as e:
+                dropped[tag.name] = e.msg
+                continue
+            except Exception as e:
+                dropped[tag.name] = '%s: %s' % (type(e).__name__, e)
+                continue
+            # maximal runs of versions under which the tag is an attribute
+            k = 0
+            while k < len(codes):
+                if act[k]:
+                    j = k
+                    while j + 1 < len(codes) and act[j + 1]:
+                        j += 1
+                    lo = LO_MIN if k == 0 else codes[k]
+                    hi = HI_MAX if j == len(codes) - 1 else codes[j + 1]
+                    rows.append([tag.value, list(kind), lo, hi])
+                    k = j + 1
+                else:
+                    k += 1
+        self.tables[name] = {'factory': fkey, 'rows': rows, 'dropped': dropped}
+        return name
 
     def struct_owner(self, ctx, node, obj):
         t = type(obj)
@@ -298,7 +448,7 @@ class ReadWalker:
 
     def construct_and_read(self, stmts, what):
         """[target = CTOR; target.read(buf, v); (self._x = target)] -> (field, tag, kind, ctor node)"""
-        if len(stmts) not in (2, 3):
+        if len(stmts) not in (2, 3, 4):
             raise self.ctx.err(stmts[0], '%s: expected <construct>; <read>, got %d statements' % (what, len(stmts)))
         a = stmts[0]
         if not (isinstance(a, ast.Assign) and len(a.targets) == 1 and isinstance(a.value, ast.Call)):
@@ -310,12 +460,31 @@ class ReadWalker:
         if ast.dump(rc[0]) != ast.dump(target).replace('Store()', 'Load()'):
             raise self.ctx.err(stmts[1], '%s: read() is called on %s, constructed %s' % (what, _dump(rc[0]), _dump(target)))
         field_node = target
-        if len(stmts) == 3:
-            b = stmts[2]
-            if not (isinstance(b, ast.Assign) and len(b.targets) == 1 and isinstance(target, ast.Name)
-                    and _is_name(b.value, target.id) and _self_attr(b.targets[0])):
-                raise self.ctx.err(b, '%s: expected self.<field> = <local>: %s' % (what, _dump(b)))
-            field_node = b.targets[0]
+        if len(stmts) >= 3:
+            # the decoded local is stored in self, possibly after a pure conversion (Attributes -> TemplateAttribute,
+            # `.value`, `.attributes`): x2 = f(x1); self.<field> = g(x2).  The conversion is not modelled: the schema item is
+            # the item decoded from the stream; what the conversion does to the value is tied by K and the oracle only.
+            if not isinstance(target, ast.Name):
+                raise self.ctx.err(stmts[2], '%s: statements after the read of an attribute of self' % what)
+            cur = target.id
+            for k, b in enumerate(stmts[2:]):
+                last = k == len(stmts) - 3
+                if not (isinstance(b, ast.Assign) and len(b.targets) == 1):
+                    raise self.ctx.err(b, '%s: expected an assignment after the read: %s' % (what, _dump(b)))
+                used = {n.id for n in ast.walk(b.value) if isinstance(n, ast.Name)}
+                if cur not in used or 'self' in used or self.buf in used or 'kmip_version' in used:
+                    raise self.ctx.err(b, '%s: expected a pure function of the decoded item: %s' % (what, _dump(b)))
+                if not _is_name(b.value, cur):
+                    self.flags.add('convert')
+                    self.converted_next = True
+                if last:
+                    if not _self_attr(b.targets[0]):
+                        raise self.ctx.err(b, '%s: expected self.<field> = ...: %s' % (what, _dump(b)))
+                    field_node = b.targets[0]
+                else:
+                    if not isinstance(b.targets[0], ast.Name):
+                        raise self.ctx.err(b, '%s: expected a local variable: %s' % (what, _dump(b)))
+                    cur = b.targets[0].id
         obj = self.ctx.evaluate(a.value)
         tag, kind = self.kinds.classify(self.ctx, a.value, obj)
         if kind[0] == 'struct' and not rc[1]:
@@ -334,6 +503,9 @@ class ReadWalker:
                            'mult': mult, 'line': node.lineno})
         if not isinstance(field_node, str) and _self_attr(field_node):
             self.attr_of[field] = _self_attr(field_node)
+        if getattr(self, 'converted_next', False):
+            self.items[-1]['converted'] = True
+            self.converted_next = False
 
     # ------------------------------------------------------------------ dispatch on an earlier field
     def decoded_fields_in(self, nodes):
@@ -472,6 +644,30 @@ class ReadWalker:
                     return None
                 self.add_dispatched(stmts[start], rc[0], block, rc[0], guard, mult, False)
                 return j + 1
+            # F5: x = <factory>(self.K); if self.is_tag_next(x.tag, buf): self.F = x; self.F.read(buf, ...) [else: raise]
+            if isinstance(st, ast.If) and j > start and isinstance(st.test, ast.Call) and _self_attr(st.test.func) == 'is_tag_next' \
+                    and len(st.test.args) == 2 and _is_name(st.test.args[1], self.buf) and isinstance(st.test.args[0], ast.Attribute) \
+                    and st.test.args[0].attr == 'tag' and isinstance(st.test.args[0].value, ast.Name) and len(st.body) == 2:
+                x = st.test.args[0].value.id
+                a2, rd2 = st.body
+                block = stmts[start:j]
+                try:
+                    rc = self.read_call(rd2)
+                except Untranslatable:
+                    rc = None
+                if rc is None or not rc[1] or not (isinstance(a2, ast.Assign) and len(a2.targets) == 1 and _self_attr(a2.targets[0])
+                                                    and _is_name(a2.value, x)) \
+                        or ast.dump(rc[0]) != ast.dump(a2.targets[0]).replace('Store()', 'Load()') \
+                        or self.touches_stream(block) or not self.decoded_fields_in(block):
+                    return None
+                if not st.orelse:
+                    mult = 'Opt'
+                elif len(st.orelse) == 1 and isinstance(st.orelse[0], ast.Raise):
+                    mult = 'Req'
+                else:
+                    return None
+                self.add_dispatched(stmts[start], a2.targets[0], block, ast.Name(id=x, ctx=ast.Load()), guard, mult, False)
+                return j + 1
             if self.touches_stream([st]):
                 return None
         return None
@@ -602,6 +798,15 @@ class ReadWalker:
                 self.buf = self.instream
                 self.substream = False
                 self.flags.add('no_substream')
+            # exactly one attribute of any kind (CurrentAttribute / NewAttribute)
+            if isinstance(s, ast.If) and i + 1 < len(stmts):
+                m = match_any_attr('rd_one', stmts[i - 1:i + 2])
+                if m is not None and m['BUF'] == self.buf:
+                    tname = self.kinds.tagged_table(self.ctx, s, m['FACT'])
+                    self.add(s, ast.Attribute(value=ast.Name(id='self', ctx=ast.Load()), attr=m['FIELD'], ctx=ast.Load()), 0, ('tagged', tname), guard, 'Req')
+                    self.flags.add('v4')
+                    i += 2
+                    continue
             # version guard
             if isinstance(s, ast.If):
                 vt = version_test(s.test)
@@ -635,6 +840,14 @@ class ReadWalker:
                 if ne:
                     continue
                 raise self.ctx.err(s, 'unrecognised if: %s' % _dump(s.test))
+            if isinstance(s, ast.While) and isinstance(s.test, ast.Constant) and s.test.value is True:
+                m = match_any_attr('rd_many', [s])
+                if m is None or m['BUF'] != self.buf:
+                    raise self.ctx.err(s, '`while True` loop that is not the any-attribute loop of Attributes.read')
+                tname = self.kinds.tagged_table(self.ctx, s, m['FACT'])
+                self.add(s, ast.Attribute(value=ast.Name(id='self', ctx=ast.Load()), attr=m['FIELD'], ctx=ast.Load()), 0, ('tagged', tname), guard, 'Many')
+                self.flags.add('v4')
+                continue
             if isinstance(s, ast.While):
                 tag = self.tag_next_test(s.test)
                 if tag is None or s.orelse:
@@ -953,6 +1166,33 @@ class WriteWalker:
                     return f[0]
         return None
 
+    def chain_write(self, stmts):
+        """[x1 = f(self.<field>); x2 = g(x1); ...; xn.write(buf, kmip_version=...)] -> (node of self.<field>, has_v)"""
+        if len(stmts) < 2 or len(stmts) > 3:
+            return None
+        wc = self.write_call(stmts[-1])
+        if not wc or not isinstance(wc[0], ast.Name):
+            return None
+        root, cur = None, None
+        for b in stmts[:-1]:
+            if not (isinstance(b, ast.Assign) and len(b.targets) == 1 and isinstance(b.targets[0], ast.Name)):
+                return None
+            used = {n.id for n in ast.walk(b.value) if isinstance(n, ast.Name)}
+            selfs = [n for n in ast.walk(b.value) if _self_attr(n)]
+            if self.buf in used or 'kmip_version' in used:
+                return None
+            if cur is None:
+                if len(selfs) != 1:
+                    return None
+                root = selfs[0]
+            elif selfs or cur not in used:
+                return None
+            cur = b.targets[0].id
+        if wc[0].id != cur:
+            return None
+        self.flags.add('convert')
+        return root, wc[1]
+
     def for_loop(self, s):
         """`for x in self._xs: x.write(buf, ...)` -> (list node, has_v)"""
         if isinstance(s, ast.For) and isinstance(s.target, ast.Name) and not s.orelse and len(s.body) == 1:
@@ -962,9 +1202,24 @@ class WriteWalker:
         return None
 
     def walk(self, stmts, guard, top=False):
-        for s in stmts:
+        skip = 0
+        for pos, s in enumerate(stmts):
+            if skip:
+                skip -= 1
+                continue
             if _is_docstring(s):
                 continue
+            # unconditional conversion + write: x = f(self.<field>); [y = g(x);] y.write(buf, ...)  -> required item
+            if self.buf is not None and not self.trailer and isinstance(s, ast.Assign) and len(s.targets) == 1 \
+                    and isinstance(s.targets[0], ast.Name) and any(_self_attr(n) for n in ast.walk(s.value)):
+                for ln in (2, 3):
+                    cw = self.chain_write(list(stmts[pos:pos + ln])) if pos + ln <= len(stmts) else None
+                    if cw:
+                        self.add(s, cw[0], guard, 'Req', 'none', cw[1])
+                        skip = ln - 1
+                        break
+                if skip:
+                    continue
             if top and isinstance(s, ast.Expr) and isinstance(s.value, ast.Call) and _self_attr(s.value.func) == 'validate' \
                     and not s.value.args and not s.value.keywords and self.trailer == 0:
                 check_validate(self.ctx, s)
@@ -984,6 +1239,14 @@ class WriteWalker:
                 raise self.ctx.err(s, 'expected <buf> = BytearrayStream() first: %s' % _dump(s))
             if self.trailer or (top and self.is_trailer_start(s)):
                 self.trailer_step(s, top)
+                continue
+            m = match_any_attr('wr_many', [s]) if isinstance(s, ast.For) else None
+            if m is not None and m['BUF'] == self.buf:
+                self.add(s, ast.Attribute(value=ast.Name(id='self', ctx=ast.Load()), attr=m['FIELD'], ctx=ast.Load()), guard, 'Many', 'none', True)
+                continue
+            m = match_any_attr('wr_one', [s]) if isinstance(s, ast.If) else None
+            if m is not None and m['BUF'] == self.buf:
+                self.add(s, ast.Attribute(value=ast.Name(id='self', ctx=ast.Load()), attr=m['FIELD'], ctx=ast.Load()), guard, 'Req', 'truthy_object', True)
                 continue
             ne = self.nonempty_guard(s)
             if ne:
@@ -1013,11 +1276,12 @@ class WriteWalker:
                         and self.ctx.field_of(body[0].test.left):
                     self.key_required.setdefault(field, set()).add(self.ctx.field_of(body[0].test.left)[0])
                     body = body[1:]
-                if len(body) != 1:
+                cw = self.chain_write(body)
+                if cw is None and len(body) != 1:
                     raise self.ctx.err(s, 'presence test guards %d statements, expected one write' % len(body))
                 b = body[0]
-                fl = self.for_loop(b)
-                wc = None if fl else self.write_call(b)
+                fl = None if cw else self.for_loop(b)
+                wc = cw if cw else (None if fl else self.write_call(b))
                 if fl:
                     target, has_v, mult = fl[0], fl[1], 'Many'
                     if s.orelse:
@@ -1323,6 +1587,10 @@ def translate(repo):
     excluded = {n: 'hand-modelled: ' + hand[n] for n in hand if n in classes}
     for n, e in unlisted.items():
         excluded[n] = 'UNTRANSLATABLE: ' + e
+    v4 = v3 and 'KTagged' in (HERE.parent / 'coq' / 'theories' / 'Codec' / 'Schema.v').read_text()
+    for n, c in ok.items():
+        if 'v4' in c['flags'] and not v4 and n not in excluded:
+            excluded[n] = 'needs Schema.v v4 (KTagged any-attribute items), not provided by the interpreter this run compiles against'
     for n, c in ok.items():
         if 'v3' in c['flags'] and not v3 and n not in excluded:
             excluded[n] = 'needs Schema.v v3 (c_substream / Counted / ByNextType), not provided by the interpreter this run compiles against'
@@ -1340,6 +1608,14 @@ def translate(repo):
     changed = True
     while changed:
         changed = False
+        for tb in kinds.tables.values():
+            keep = [r for r in tb['rows'] if not (r[1][0] == 'struct' and r[1][1] in excluded)]
+            if len(keep) != len(tb['rows']):
+                for r in tb['rows']:
+                    if r not in keep:
+                        tb['dropped'][kinds.enums.Tags(r[0]).name] = 'class %s is outside the translator' % r[1][1]
+                tb['rows'] = keep
+                changed = True
         for n, c in ok.items():
             if n in excluded:
                 continue
@@ -1380,14 +1656,14 @@ def translate(repo):
               and all(it['kind'][0] != 'struct' or it['kind'][1] in inc_names for it in ok[n]['rd'] + ok[n]['wr'])]
     for c in included + listed:
         c['default_tag'] = default_tag(classes[c['name']])
-    return {'v3': v3, 'classes': included, 'listed': listed, 'excluded': excluded, 'errors': errors, 'unlisted_errors': unlisted,
+    return {'v3': v3, 'v4': v4, 'tables': kinds.tables if v4 else {}, 'classes': included, 'listed': listed, 'excluded': excluded, 'errors': errors, 'unlisted_errors': unlisted,
             'listed_but_translatable': listed_but_ok, 'stale_list_entries': stale,
             'all_class_names': names, 'hand': hand}
 
 
 # ------------------------------------------------------------------ rendering
 def coq_kind(k):
-    return {'prim': 'KPrim %s', 'enum': 'KEnum "%s"', 'struct': 'KStruct "%s"'}[k[0]] % k[1]
+    return {'prim': 'KPrim %s', 'enum': 'KEnum "%s"', 'struct': 'KStruct "%s"', 'tagged': 'KTagged "%s"'}[k[0]] % k[1]
 
 
 def coq_pval(p):
@@ -1431,6 +1707,11 @@ def used_enum_names(t):
             for row in (it.get('by') or {}).get('table', []):
                 if row[2][0] == 'enum':
                     names.add(row[2][1])
+    for tb in (t.get('tables') or {}).values():
+        names.add('Tags')
+        for row in tb['rows']:
+            if row[1][0] == 'enum':
+                names.add(row[1][1])
     return sorted(names)
 
 
@@ -1458,8 +1739,11 @@ def render_coq(t):
     out.append('  e_classes := [' + ';\n    '.join('C_' + c['name'] for c in t['classes']) + '];')
     # Schema.v v4: the environment carries tag tables for any-attribute items (none emitted yet)
     v4 = 'e_tables' in (Path(__file__).resolve().parent.parent / 'coq' / 'theories' / 'Codec' / 'Schema.v').read_text()
+    tables = t.get('tables') or {}
+    tbl = ';\n    '.join('("%s", [\n      %s])' % (n, ';\n      '.join('(%d, %s, %d, %d)' % (r[0], coq_kind(tuple(r[1])), r[2], r[3]) for r in tb['rows']))
+                         for n, tb in sorted(tables.items()))
     out.append('  e_enums := [' + ';\n    '.join('("%s", EV_%s)' % (e, e) for e in used_enums) + ']'
-               + (';\n  e_tables := []' if v4 else '') + ' |}.')
+               + (';\n  e_tables := [' + tbl + ']' if v4 else '') + ' |}.')
     out.append('')
     out.append('(* the tag each class encodes itself with when constructed without a tag argument *)')
     out.append('Definition class_tags : list (string * Z) := [')
@@ -1490,7 +1774,8 @@ def render_json(t):
                 'wr': [{k: (list(v) if k == 'kind' else v) for k, v in i.items()} for i in c['wr']]}
     doc = {
         'classes': [cj(c) for c in t['classes']],
-        'schema_v3': t.get('v3', False),
+        'schema_v3': t.get('v3', False), 'schema_v4': t.get('v4', False),
+        'tables': t.get('tables') or {},
         'enums': {e: sorted({m.value for m in getattr(enums, e)}) for e in used_enums},
         'excluded': t['excluded'],
         'listed_but_translatable': t['listed_but_translatable'],
